@@ -59,15 +59,47 @@ def run(chk, repo):
     ps = iteration_paths(gcfg, loop, max_paths=5000)
     chk.paths += len(ps)
     bad = None
+    COUNTER = 'self.labels'
+
+    def is_store(a):
+        t = a.targets[0] if isinstance(a, ast.Assign) and len(a.targets) == 1 else (a.target if isinstance(a, ast.AugAssign) else None)
+        return isinstance(t, ast.Subscript) and unparse(t.value) == COUNTER
+
+    def store_ok(a, lab):
+        """the store makes the counter of `lab` one larger than before (or 1 when absent)"""
+        t = a.targets[0] if isinstance(a, ast.Assign) else a.target
+        if unparse(t.slice) != lab:
+            return False
+        if isinstance(a, ast.AugAssign):
+            return isinstance(a.op, ast.Add) and unparse(a.value) == '1'
+        v = unparse(sem_b.expand_names(g.node, a, a.value, allow_calls=('get',))).replace(' ', '')
+        return v in ('1', f'{COUNTER}.get({lab},0)+1', f'{COUNTER}[{lab}]+1', f'1+{COUNTER}.get({lab},0)')
+    from sa import sem as sem_b
     for p in ps:
-        idx = [i for i, n in enumerate(p.nodes()) if n.kind == 'stmt' and norm_stmt(n.ast) == "label += f'|{self.labels[label]}'"]
-        incs = [i for i, n in enumerate(p.nodes()) if n.kind == 'stmt' and norm_stmt(n.ast) in ('self.labels[label] += 1', 'self.labels[label] = 1')]
-        emits = [i for i, n in enumerate(p.nodes()) if n.kind == 'stmt' and 'AnnotatedPeptideLabel(label, metadata.segments)' in norm_stmt(n.ast)]
-        uniq = [i for i, n in enumerate(p.nodes()) if n.kind == 'stmt' and norm_stmt(n.ast) == 'unique_labels.add(label)']
-        if emits:
-            if not (len(idx) == 1 and len(incs) == 1 and len(uniq) == 1 and uniq[0] < incs[0] < idx[0] < emits[0]):
+        nodes = [n for n in p.nodes() if n.kind == 'stmt']
+        emits = [i for i, n in enumerate(nodes) if any(isinstance(c, ast.Call) and call_name(c) == 'AnnotatedPeptideLabel' for c in ast.walk(n.ast))]
+        stores = [i for i, n in enumerate(nodes) if isinstance(n.ast, (ast.Assign, ast.AugAssign)) and is_store(n.ast)]
+        if not emits:
+            if stores:
                 bad = bad or p
-        elif idx or incs:
+            continue
+        ec = next(c for c in ast.walk(nodes[emits[0]].ast) if isinstance(c, ast.Call) and call_name(c) == 'AnnotatedPeptideLabel')
+        lab = unparse(ec.args[0]) if ec.args else None
+        uniq = [i for i, n in enumerate(nodes) if isinstance(n.ast, ast.Expr) and isinstance(n.ast.value, ast.Call) and call_name(n.ast.value) == 'add'
+                and [unparse(a) for a in n.ast.value.args] == [lab]]
+        idx = []
+        for i, n in enumerate(nodes):
+            a = n.ast
+            if isinstance(a, ast.AugAssign) and unparse(a.target) == lab and isinstance(a.op, ast.Add) and isinstance(a.value, ast.JoinedStr):
+                fv = [v for v in a.value.values if isinstance(v, ast.FormattedValue)]
+                if len(fv) == 1:
+                    vt = unparse(fv[0].value)
+                    stored_names = {unparse(nodes[k].ast.value) for k in stores if isinstance(nodes[k].ast, ast.Assign)}
+                    if vt == f'{COUNTER}[{lab}]' or vt in stored_names:
+                        idx.append(i)
+        good = lab is not None and len(emits) == 1 and len(idx) == 1 and len(stores) == 1 and len(uniq) == 1 and uniq[0] < stores[0] < idx[0] < emits[0] \
+            and store_ok(nodes[stores[0]].ast, lab)
+        if not good:
             bad = bad or p
     chk.ob('C03.b', 'every emitted label: duplicate filter -> one increment -> index appended -> emitted', repo.loc(g, loop), bad is None,
            'a header entry can be emitted with an index that was not freshly incremented (duplicate header strings) or a counter is bumped without emission',
